@@ -646,7 +646,41 @@ def _apply_proj(fn, base, proj, depth, seen):
             else:
                 r = ("field", r, e[2], e[3])
         elif k == "d":
-            r = ("variant", r, e[1])
+            # downcast of a value built in place: `Some(x) as Some` is the aggregate itself, `None as Some` cannot be reached;
+            # over a merge of such values only the arms of that variant remain
+            inner = r
+            while inner[0] == "var":
+                inner = inner[2]
+
+            def _is_adt(a):
+                return a[0] == "agg" and isinstance(a[1], str) and a[1].startswith("adt:") and "::" in a[1]
+            if _is_adt(inner) and inner[1].rsplit("::", 1)[1] == e[1]:
+                r = inner
+            elif inner[0] == "phi" and any(_is_adt(strip(a)) for a in inner[1]):
+                keep = []
+                for a in inner[1]:
+                    sa_ = strip(a)
+                    if _is_adt(sa_):
+                        if sa_[1].rsplit("::", 1)[1] == e[1]:
+                            keep.append(sa_)
+                    else:
+                        keep.append(("variant", a, e[1]))
+                if len(keep) == 1:
+                    r = keep[0]
+                elif keep and all(_is_adt(a) for a in keep) and len(set((a[1], a[3]) for a in keep)) == 1 and len(set(len(a[2]) for a in keep)) == 1:
+                    # same variant built on several paths: merge field-wise so that a field projection picks the merged operand
+                    ops = []
+                    for i_ in range(len(keep[0][2])):
+                        col = []
+                        for a in keep:
+                            if a[2][i_] not in col:
+                                col.append(a[2][i_])
+                        ops.append(col[0] if len(col) == 1 else ("phi", tuple(col)))
+                    r = ("agg", keep[0][1], tuple(ops), keep[0][3])
+                else:
+                    r = ("variant", r, e[1])
+            else:
+                r = ("variant", r, e[1])
         elif k == "i":
             r = ("index", r, fn.sym_local(e[1], depth + 1, seen))
         elif k == "ci":
